@@ -45,24 +45,71 @@ from pyvc.verify import Maker, p_ext, p_opt
 OMML = "sharepoint2text/parsing/extractors/util/omml_to_latex.py"
 
 
+def _own(fnode, types):
+    out = []
+
+    def rec(n):
+        for ch in ast.iter_child_nodes(n):
+            if isinstance(ch, types):
+                out.append(ch)
+            if isinstance(ch, (ast.FunctionDef, ast.AsyncFunctionDef, ast.Lambda, ast.ClassDef)):
+                continue
+            rec(ch)
+    rec(fnode)
+    return out
+
+
 def _discover():
-    """the nested recursive worker of omml_to_latex and the enclosing-scope variable it rebinds, found by what they
-    are (the nested def with a `nonlocal` declaration / its single declared name), not by how they are called"""
-    name, var, ok = "process_element", "pending_sqrt_close", False
+    """The nested recursive worker of omml_to_latex and the enclosing-scope state it shares, found by what they are, not by
+    how they are called.  worker = the nested def that the converter's own statements call and that reaches itself through
+    calls among the nested defs (directly, or through sibling helpers: a worker split in two); state = every name one of
+    these functions declares `nonlocal`: exactly ONE of them starts as None / a str constant (the closer a malformed radical
+    waits for), every other one starts as an int constant (AUX: counters, budgets -- arbitrary at entry, havocked by calls).
+    Any other shape: STATE_MODEL False -> nothing is claimed symbolically (bounded native stand-in).
+    -> (worker name, pending variable, ok, aux names, sibling helper names)"""
+    name, var, ok, aux, helpers = "process_element", "pending_sqrt_close", False, (), ()
     try:
         m = loader.module(OMML)
         outer = m.functions.get("omml_to_latex")
-        nested = [n for n in ast.walk(outer) if isinstance(n, ast.FunctionDef) and n is not outer] if outer is not None else []
-        withnl = [(n, [x for st_ in ast.walk(n) if isinstance(st_, ast.Nonlocal) for x in st_.names]) for n in nested]
-        withnl = [(n, v) for n, v in withnl if v]
-        if len(withnl) == 1 and len(set(withnl[0][1])) == 1:
-            name, var = withnl[0][0].name, withnl[0][1][0]
-            ok = True
+        nested = _own(outer, ast.FunctionDef) if outer is not None else []
+        byname = {n.name: n for n in nested}
+        if len(byname) != len(nested):
+            return name, var, False, (), ()
+        calls = {n.name: {c.func.id for c in ast.walk(n) if isinstance(c, ast.Call) and isinstance(c.func, ast.Name) and c.func.id in byname}
+                 for n in nested}
+        entry = {c.func.id for c in _own(outer, ast.Call) if isinstance(c.func, ast.Name) and c.func.id in byname}
+
+        def reach(a):
+            seen, todo = set(), list(calls[a])
+            while todo:
+                x = todo.pop()
+                if x not in seen:
+                    seen.add(x)
+                    todo += list(calls[x])
+            return seen
+        workers = [n for n in nested if n.name in entry and n.name in reach(n.name)]
+        if len(workers) == 1:
+            w = workers[0]
+            name = w.name
+            group = [w] + [byname[x] for x in sorted(reach(w.name) - {w.name})]
+            nl = sorted({x for g in group for st_ in ast.walk(g) if isinstance(st_, ast.Nonlocal) for x in st_.names})
+            inits = {}
+            for st_ in _own(outer, (ast.Assign, ast.AnnAssign)):
+                tg = st_.targets if isinstance(st_, ast.Assign) else [st_.target]
+                for t in tg:
+                    if isinstance(t, ast.Name) and t.id in nl:
+                        inits.setdefault(t.id, []).append(st_.value)
+            pend = [v for v in nl if len(inits.get(v, [])) == 1 and isinstance(inits[v][0], ast.Constant)
+                    and (inits[v][0].value is None or isinstance(inits[v][0].value, str))]
+            ints = [v for v in nl if len(inits.get(v, [])) == 1 and isinstance(inits[v][0], ast.Constant)
+                    and type(inits[v][0].value) is int]
+            if len(pend) == 1 and len(pend) + len(ints) == len(nl):
+                var, ok, aux, helpers = pend[0], True, tuple(ints), tuple(g.name for g in group[1:])
         elif len(nested) == 1:
             name = nested[0].name        # a nested worker that keeps its state some other way (a cell, an object ...)
     except Exception:  # noqa  (missing file etc.: the contract target will be reported missing)
         pass
-    return name, var, ok
+    return name, var, ok, aux, helpers
 
 
 def converter_names(cm):
@@ -88,7 +135,7 @@ def converter_calls(cm, node):
         (isinstance(n.func, ast.Attribute) and n.func.attr == "omml_to_latex"))]
 
 
-PE_NAME, PENDING, STATE_MODEL = _discover()          # PENDING: the closure variable holding the closer a malformed radical waits for
+PE_NAME, PENDING, STATE_MODEL, AUX, HELPERS = _discover()          # PENDING: the closure variable holding the closer a malformed radical waits for
 PE = f"{OMML}::omml_to_latex.<locals>.{PE_NAME}"
 PE_OID = "omml_to_latex.<locals>.process_element"      # stable obligation ids whatever the nested function is called
 
@@ -254,6 +301,11 @@ def p_optstr():
     return Maker(mk, desc="Optional[str]")
 
 
+def p_auxint():
+    """auxiliary int state shared through `nonlocal` (a counter, a budget): any int at entry, any int after a call"""
+    return Maker(lambda ex, st, name: VInt(z3.Int(name)), desc="int (auxiliary closure state, unconstrained)")
+
+
 def opt_parts(v):
     if isinstance(v, VNoneT):
         return z3.BoolVal(True), sval("")
@@ -388,6 +440,18 @@ def m_iter(ex, st, obj, args, kwargs, node):
     st.assume(n >= 0)
     return [(st, VSeq(n, lambda k: VExt("Element", ITERITEM(e, T, k)), "Element",
                       tag={"facts": lambda k: iter_facts(e, T, k), "iter": (e, args[0].const())}))]
+
+
+def m_itertext(ex, st, obj, args, kwargs, node):
+    """ASSUMED: Element.itertext() = the text / tail strings of the subtree, a finite sequence of str; never raises.
+    Summarised (count + brace / visible-character sums); brace-free in a brace-free tree."""
+    if args or kwargs:
+        raise Unsupported(f"{ex.loc(node)} Element.itertext with arguments")
+    d = {k: z3.Int(fresh_name(f"itertext.{k}")) for k in ("n",) + HN}
+    for k in d:
+        st.assume(d[k] >= 0)
+    st.assume(z3.Implies(NB(obj.t), z3.And(d["LB"] == 0, d["RB"] == 0)))
+    return [(st, VRef(st.alloc(HeapObj("slist", d), ex.refs)))]
 
 
 def m_get(ex, st, obj, args, kwargs, node):
@@ -577,6 +641,7 @@ def install(reg):
     reg.method_models[("Element", "findall")] = m_findall
     reg.method_models[("Element", "get")] = m_get
     reg.method_models[("Element", "iter")] = m_iter
+    reg.method_models[("Element", "itertext")] = m_itertext
     reg.attr_models[("Element", "tag")] = a_tag
     reg.ext_models["str.split"] = m_split
     reg.ext_models["str.rsplit"] = m_rsplit
@@ -761,8 +826,17 @@ class C19Executor(Executor):
         return [(st, VStr(r))]
 
     # -- loops --------------------------------------------------------------------
+    def in_worker(self):
+        """at the level of the function under contract, or inside sibling helpers of the nested worker running in place"""
+        if self.contract is None or not self.cur_fn_stack:
+            return False
+        if self.inline_depth == 0:
+            return True
+        return self.contract.target == PE and len(self.cur_fn_stack) == self.inline_depth + 1 and \
+            all(isinstance(f, ast.FunctionDef) and f.name in HELPERS for f in self.cur_fn_stack[1:])
+
     def loop_spec(self, node):
-        if self.contract is None or self.inline_depth > 0 or not self.cur_fn_stack:
+        if not self.in_worker():
             return None
         loops = own_nodes(self.cur_fn_stack[-1], (ast.For, ast.While))
         for k, n in enumerate(loops):
@@ -772,9 +846,10 @@ class C19Executor(Executor):
 
     def loop_label(self, node):
         fnode = self.cur_fn_stack[-1]
+        pre = f"{fnode.name}." if self.inline_depth > 0 and isinstance(fnode, ast.FunctionDef) else ""
         if isinstance(node, ast.ListComp):
-            return f"comp{own_nodes(fnode, ast.ListComp).index(node)}"
-        return f"loop{own_nodes(fnode, (ast.For, ast.While)).index(node)}"
+            return f"{pre}comp{own_nodes(fnode, ast.ListComp).index(node)}"
+        return f"{pre}loop{own_nodes(fnode, (ast.For, ast.While)).index(node)}"
 
     def seq_view3(self, st, it):
         if isinstance(it, VExt) and it.sort == "Element":
@@ -966,7 +1041,7 @@ class C19Executor(Executor):
                     self.slist_append(s4, acc.ref, v)
                     outs.append(Outcome("fall", s4))
                 return outs
-            spec = self.contract.loops.get("*") if (self.contract is not None and self.inline_depth == 0) else None
+            spec = self.contract.loops.get("*") if (self.contract is not None and self.in_worker()) else None
             _outs, after = self.sym_loop(n, s2, view, g.target, body_fn, [ast.Expr(n.elt)], spec,
                                          accs_extra=[acc.ref], it=it)
             after.frames.pop()
@@ -1320,6 +1395,11 @@ def contracts(reg):
         if once(c.st, "const-facts-pe"):
             fs += const_facts([""] + source_literals(fn_omml))
         ex = c.ex
+        if HELPERS and verifying(c) and c.st.frames and c.st.frames[0].fnode is None:
+            # the worker's sibling helpers are closures of the same enclosing frame (they run in place, inlined)
+            for q_, f_ in mod(ex.module.repo).functions.items():
+                if q_.startswith("omml_to_latex.<locals>.") and f_.name in HELPERS:
+                    c.st.frames[0].env.setdefault(f_.name, VFunc("closure", f_, 0))
         if ex.contract is not None and ex.contract.target == PE and isinstance(A0(c), VExt):
             wt = ex.witness_terms = getattr(ex, "witness_terms", {})
             e = A0(c).t
@@ -1367,7 +1447,7 @@ def contracts(reg):
     out.append(FnContract(
         target=PE,
         params=[(pname(f"omml_to_latex.<locals>.{PE_NAME}", 0, "elem"), p_opt(p_ext("Element")))],
-        closure=[(PENDING, p_optstr())], closure_modifies=(PENDING,),
+        closure=[(PENDING, p_optstr())] + [(a_, p_auxint()) for a_ in AUX], closure_modifies=(PENDING,) + tuple(AUX),
         requires=pe_requires, hyps=pe_hyps, result_maker=pe_result,
         total=True, raises=[], decreases=dec,
         ensures=[
@@ -1460,7 +1540,7 @@ def tables(repo, tier):
         f"C19/{oid}", ok, why or "shape not recognised", "syntax", definite=False))
     fo = m.functions.get("omml_to_latex")
     fp = m.functions.get(f"omml_to_latex.<locals>.{PE_NAME}")
-    if fo is not None and fp is not None:
+    if fo is not None:
         # module constants: names bound exactly once at module level, never mutated, whose initialiser reads only
         # literals, other such constants and pure builtins (comprehensions, f-strings, dict()/frozenset() ... included)
         PURE = {"frozenset", "tuple", "dict", "set", "list", "sorted", "str", "len", "range", "zip", "enumerate", "chr", "ord",
@@ -1497,12 +1577,22 @@ def tables(repo, tier):
                     allowed_globals.add(k)
                     changed = True
         allowed_globals |= {k for k in m.functions if "." not in k} | {"ET"}
+        # classes of the module, like its functions: instantiated inside the converter their state is per call; an INSTANCE kept at
+        # module level is not a constant (its initialiser calls a class: not pure) and stays a free name
+        allowed_globals |= set(getattr(m, "classes", {}) or {})
         # a module logger: log statements are not part of the function's result (PY-LOG)
         allowed_globals |= {k for k, v in m.assigns.items() if isinstance(v, ast.Call) and dotted(v.func) in
                             ("logging.getLogger", "getLogger")}
         allowed_globals |= {k for k, v in m.imports.items() if v.split(".")[0] in ("logging", "typing", "__future__")}
         locs = {a.arg for a in fo.args.args} | {n.id for n in ast.walk(fo) if isinstance(n, ast.Name) and isinstance(n.ctx, ast.Store)}
-        locs |= {a.arg for a in fp.args.args} | {fp.name}
+        if fp is not None:
+            locs |= {a.arg for a in fp.args.args} | {fp.name}
+        for nf in ast.walk(fo):                     # every nested def / lambda: its name and parameters are locals of the converter
+            if isinstance(nf, (ast.FunctionDef, ast.Lambda)) and nf is not fo:
+                locs |= {a.arg for a in nf.args.args + nf.args.kwonlyargs + nf.args.posonlyargs}
+                locs |= {a.arg for a in (nf.args.vararg, nf.args.kwarg) if a is not None}
+                if isinstance(nf, ast.FunctionDef):
+                    locs.add(nf.name)
         ann = set()
         for n in ast.walk(fo):
             for a in ([n.annotation] if isinstance(n, (ast.AnnAssign, ast.arg)) and n.annotation is not None else []) + \
@@ -1616,6 +1706,7 @@ ASSUMED_MODELS = [
     "xml.etree.ElementTree.Element.find(path) for paths 'T', 'T1/T2', './/T': Element|None, never raises",
     "Element.findall('T'): the T children in order; Element.get(key[, default]): str|default; .text: str|None; .tag: str",
     "iteration over an Element = its children in order; TREE-FINITE (subtree size decreases)",
+    "Element.itertext(): a finite sequence of str (brace-free in a brace-free tree), never raises",
     "str.split(sep): at least one part; str.strip(): removes only whitespace; str.index(sub): lowest occurrence or ValueError",
     "sep.join(list of str): counts add up (+ (n-1) * count(sep))",
     "convert_greek_and_symbols is a function of its argument (CONV) at call sites",
@@ -1628,6 +1719,8 @@ BOUNDED = ["replay grammar (round 4): every structure nested in every operand sl
            "equations in one container",
            "replay grammar (round 5): every structure with its property element and every schema child of it, m:val absent and with "
            "sample values (a bar placed below the base, m:barPr/m:pos = bot, may be rendered as an underline or as the documented overline)",
+           "replay grammar (round 6): every structure nested in its own operand slot, and all structures in rotation, 8 / 16 / 32 / 64 "
+           "levels deep (level-dependent behaviour: recursion guards, budgets); deeper nesting is not searched",
            "order of the formula lists built at the docx / pptx call sites (display equations first, document order): "
            "native comparison on the container scope of replay/C19.py::site_scope, not proved",
            "run texts emitted exactly once and in source order: checked natively by replay/C19.py on all schema-shaped "
@@ -1646,12 +1739,25 @@ def post_report(c, rep):
         # the contract of the nested worker speaks about ONE enclosing variable rebound with `nonlocal`; the source keeps the
         # pending-radical state some other way, so the contract does not line up with the code: nothing is claimed symbolically
         rep.out_of_subset = rep.out_of_subset or "state of the nested worker is not a single `nonlocal` variable (contract shape not recognised)"
+    if c.target == PE and rep.error == "contract-target-missing" and _converter_present():
+        # the converter is there but its recursive worker is not a function nested in it (a method of a helper class, a module
+        # level function ...): the contract of the nested worker has nothing to line up with -- same treatment, nothing is
+        # claimed symbolically, the executable contract is run natively on the real converter
+        rep.error = None
+        rep.out_of_subset = "the recursive worker is not a function nested in omml_to_latex (contract shape not recognised)"
     if rep.out_of_subset or (rep.error and rep.error != "contract-target-missing"):
         _native_standin(c, rep)
     for o in rep.obligations:
         if o.get("status") == "refuted":
             o["status"] = "unknown"
             o["reason"] = ("candidate counter-model over the pack's abstractions; " + (o.get("reason") or ""))[:300]
+
+
+def _converter_present():
+    try:
+        return loader.module(OMML).functions.get("omml_to_latex") is not None
+    except Exception:  # noqa
+        return False
 
 
 def _native_standin(c, rep):
